@@ -249,8 +249,8 @@ def toValidUTF8Aux : Nat → Bool → Bytes → Bytes
 def toValidUTF8 (s : Bytes) : Bytes := toValidUTF8Aux s.length false s
 
 /-- `(*WFN).UnmarshalText`: the empty text is accepted and leaves the receiver
-    alone, anything else is `Unbind` (`none` = error; the real method then
-    also overwrites the receiver with whatever Unbind returned). -/
+    alone, anything else is `Unbind` (`none` = error; after the fix the
+    receiver is then left alone too, which the harness checks directly). -/
 def wfnUnmarshalText {W : Type} (unbind : Bytes → Option W) (old : W) (b : Bytes) : Option W :=
   if b.isEmpty then some old else unbind b
 
